@@ -64,6 +64,28 @@ def big_workload(rng, nrows):
             "data": data, "kwargs": {}, "env": {}, "output_folder": False, "meta": {"big": nrows}}
 
 
+def bigframe_workload(rng, nrows):
+    """One pandas input that is large *relative to a small hard memory limit* (tens of MB of object columns), with a Date
+    measure in which a few values carry a time of day and a String measure with null-looking tokens: any alternative
+    load / staging / spill path chosen from the input's size and the memory limit must keep the values."""
+    comps = [{"name": "Id_1", "type": "Integer", "role": "Identifier", "nullable": False},
+             {"name": "Me_d", "type": "Date", "role": "Measure", "nullable": True},
+             {"name": "Me_s", "type": "String", "role": "Measure", "nullable": True},
+             {"name": "Me_n", "type": "Number", "role": "Measure", "nullable": True}]
+    cols = [c["name"] for c in comps]
+    toks = ["NA", "null", "N/A", "nan", "value-%d", "x" * 40, "00123", "TRUE"]
+    # the odd rows sit where the (small) results below keep them
+    odd = set(rng.sample([i for i in range(nrows) if (i % 1000) / 8.0 < 5 and i % 101], 20)) | set(rng.sample(range(nrows - 2000, nrows), 5))
+    rows = [[i + 1, ("2020-02-02 01:01:01" if i in odd else "2020-%02d-%02d" % (1 + i % 12, 1 + i % 28)),
+             (toks[i % len(toks)] % i if "%d" in toks[i % len(toks)] else toks[i % len(toks)]), (None if i % 101 == 0 else (i % 1000) / 8.0)]
+            for i in range(nrows)]
+    stmts = rng.sample(["R_f <- DS_1[filter Me_n < 5];", "R_x <- DS_1[filter Me_n < 2][calc Me_y := cast(Me_d, string)][keep Me_y, Me_s];",
+                        "R_t <- DS_1[filter Id_1 > %d];" % (nrows - 2000)], rng.choice([1, 2]))
+    return {"api": "run", "script": "\n".join(stmts) + "\n", "structures": {"datasets": [{"name": "DS_1", "DataStructure": comps}]},
+            "data": {"DS_1": {"kind": "df", "columns": cols, "rows": rows}}, "kwargs": {}, "env": {}, "output_folder": False,
+            "meta": {"big": nrows, "bigframe": True}}
+
+
 def _with(op, var):
     o = dict(op)
     o["env"] = dict(var.get("env") or {})
@@ -167,6 +189,11 @@ def _make_op(src):
         o = c33.sampling_workload(random.Random(src[1]))
         o["sid"] = "sample:%d" % src[1]
         return o, True
+    if src[0] == "bigframe":
+        rng = random.Random(src[1])
+        o = bigframe_workload(rng, src[2])
+        o["sid"] = "bigframe:%d:%d" % (src[1], src[2])
+        return o, True
     if src[0] == "big":
         rng = random.Random(src[1])
         o = big_workload(rng, src[2])
@@ -215,7 +242,7 @@ def task_batch(task):
         if big:
             # results larger than one hand-over batch of the engine: always one run under a hard
             # memory limit whose tables are stored in a non-trivial physical layout
-            variants[0] = {"env": {"VTL_MEMORY_LIMIT": rng.choice(["256MB", "1GB", "2000000000"]),
+            variants[0] = {"env": {"VTL_MEMORY_LIMIT": "64MB" if (op.get("meta") or {}).get("bigframe") else rng.choice(["256MB", "1GB", "2000000000"]),
                                    "VTL_USE_IN_MEMORY_DB": rng.choice(["0", "1"])}, "permute": rng.randrange(1, 1 << 30)}
         variants.insert(rng.randrange(len(variants) + 1), {"env": {}})      # a repeated default run somewhere
         if rng.random() < 0.6:                                               # an unrelated run in between
@@ -321,6 +348,7 @@ def run(ctx):
     items += [("corpus", e) for e in rng.sample(cps, min(n_corpus, len(cps)))]
     bigs = [("big", rng.randrange(1 << 30), rng.choice([5000, 20000, 150000] if quick else [20000, 100000, 150000, 300000])) for _ in range(6 if quick else 120)]
     rng.shuffle(items)
+    bigs = [("bigframe", rng.randrange(1 << 30), rng.choice([170000] if quick else [250000, 400000, 600000])) for _ in range(1 if quick else 20)] + bigs
     items = bigs + [("sample", rng.randrange(1 << 30)) for _ in range(4 if quick else 120)] + \
         [("tseries", rng.randrange(1 << 30)) for _ in range(12 if quick else 600)] + items
     size = 5
